@@ -41,7 +41,7 @@ func TestMain(m *testing.M) {
 // (b) hostile text
 
 // Sink kinds, in the order they appear in the skeleton.
-var sinkKinds = []string{"pkgdoc", "typedoc", "constcomment", "funcdoc", "logprintln", "logprintf", "fmtprintln", "strlit", "panicmsg", "strlit2", "funcdoc2", "blockdoc", "strlit3", "strlit4", "strlit5"}
+var sinkKinds = []string{"pkgdoc", "typedoc", "constcomment", "funcdoc", "logprintln", "logprintf", "fmtprintln", "strlit", "panicmsg", "strlit2", "funcdoc2", "blockdoc", "strlit3", "strlit4", "strlit5", "panicconcat", "constmsg"}
 
 // HostileCase is one generated case.
 type HostileCase struct {
@@ -157,6 +157,11 @@ func render(sinks map[string]string) string {
 	sb.WriteString("func pick(a string, b string) string {\n\treturn a + b\n}\n\n")
 	sb.WriteString("func k(b bool) string {\n\tif b {\n\t\treturn " + goString(g("strlit3")) + "\n\t}\n")
 	sb.WriteString("\treturn pick(" + goString(g("strlit4")) + ", " + goString(g("strlit5")) + ")\n}\n")
+	// panic messages that are constant EXPRESSIONS rather than one literal (a concatenation, a named
+	// constant), and the string constant itself (seeded change C05-12)
+	sb.WriteString("\nconst pmsg = " + goString(g("constmsg")) + "\n\n")
+	sb.WriteString("func pn(b bool) {\n\tif b {\n\t\tpanic(\"pn: \" + " + goString(g("panicconcat")) + ")\n\t}\n}\n\n")
+	sb.WriteString("func pc(b bool) {\n\tif b {\n\t\tpanic(pmsg)\n\t}\n}\n")
 	return sb.String()
 }
 
@@ -309,6 +314,13 @@ func runHostile(c HostileCase) (msg string, reached bool) {
 			for _, d := range af.Decls {
 				if fd, ok := d.(*ast.FuncDecl); ok && fd.Pos() <= ce.Pos && ce.Pos < fd.End() {
 					name = fd.Name.Name
+				}
+				if gd, ok := d.(*ast.GenDecl); ok && gd.Tok == token.CONST && gd.Pos() <= ce.Pos && ce.Pos < gd.End() {
+					for _, sp := range gd.Specs {
+						if vs, ok := sp.(*ast.ValueSpec); ok && len(vs.Names) == 1 && vs.Names[0].Name == "pmsg" {
+							name = "pmsg"
+						}
+					}
 				}
 			}
 		}
